@@ -116,6 +116,7 @@ def extract(repo=REPO, ndebug=False, units=None, root=None, tag='lib'):
 class Program:
     def __init__(self, files, repo=REPO):
         self.repo = repo
+        self._known_private = None
         self.funcs = {}      # key -> function record (definition)
         self.by_q = {}       # qualified name -> [records]
         self.decls = {}      # key -> declaration record
@@ -151,6 +152,22 @@ class Program:
 
     def rel(self, path):
         return os.path.relpath(path, self.repo) if path.startswith(self.repo) else path
+
+    def is_helper(self, g):
+        """a function whose body is read as part of its callers (expanded in place): a unit-private
+        free function (internal linkage), or a private non-virtual method that did not exist when
+        the rule tables were frozen (sa/rules/known_private.json lists the private methods of the
+        confirmed tree: those are protocol steps with their own inventory, not helpers)"""
+        if g is None or not g.get('body') or g.get('va'):
+            return False
+        if g.get('internal'):
+            return True
+        if g.get('kind') == 'method' and g.get('access') == 'private' and not g.get('virt'):
+            if self._known_private is None:
+                p = os.path.join(VERIF, 'sa', 'rules', 'known_private.json')
+                self._known_private = set(json.load(open(p))) if os.path.exists(p) else set()
+            return g['q'] not in self._known_private
+        return False
 
     def fn(self, q, nth=None, where=None):
         """function(s) by qualified name; raises AnalysisBroken if missing (vanished anchor)"""
